@@ -181,6 +181,8 @@ class RealPool(REAL_POOL):
             label = getattr(getattr(inner, "__self__", None), "id", None)
         elif owner is not None:
             label = getattr(owner, "id", None)
+        if isinstance(label, str):
+            label = label.split(".")[-1]  # a node of a nested DAG carries the dotted prefix of the DAG's name
         if label is not None:
             w.submitted_kind[label] = kind
         w.event("submit", kind)
@@ -194,7 +196,7 @@ class RealPool(REAL_POOL):
         if kind == "thread":
             w.meta[id(fut)] = Pseudo(label, kind, fut, w.uid)
             w.keep.append(fut)
-        if label is not None and not w.ev(w.entered, label).wait(3):
+        if label is not None and not w.ev(w.entered, label).wait(8):
             w.event("queued", label)  # no free worker: the callable sits in the pool's queue
         return fut
 
@@ -214,6 +216,8 @@ class AsyncioProxy:
         try:
             fn = coro.cr_frame.f_locals.get("func")
             label = getattr(getattr(fn, "__self__", None), "id", None)
+            if isinstance(label, str):
+                label = label.split(".")[-1]
         except Exception:  # noqa: BLE001
             pass
         task = real_asyncio.ensure_future(coro, **kw)
